@@ -63,6 +63,8 @@ def reply(rnd, code=None, max_parts=5, edge=False, allow_5xx_multi=True):
                           [text(rnd, edge=edge) for _ in range(nl)]))
     if code >= 500:
         end = first_text(rnd, allow_empty=False) or "Unrecognized"
+        if rnd.random() < 0.08:
+            end = "OK"          # an error whose last line reads like the 2xx terminator
     else:
         end = "OK" if rnd.random() < 0.8 else (first_text(rnd, allow_empty=False, edge=edge) or "OK")
     parts.append(("end", end))
